@@ -14,7 +14,8 @@ from vf.specs import stubs, table_ref
 
 def gen_table(rng, prefix_free_codes=True):
     texts = set()
-    pool = "abcdeXYZ 01_-"
+    # letters, digits, blank and punctuation, and characters outside ASCII (accented Latin, kana, a symbol) as real script tables hold them
+    pool = "abcdeXYZ 01_-" + ("\u00e9\u00f4\u30a2\u00a7" if rng.random() < 0.5 else "")
     while len(texts) < rng.randint(2, 7):
         t = "".join(rng.choice(pool) for _ in range(rng.choice([1, 1, 1, 2, 3])))
         if t.strip() == "" and len(t) > 1:
